@@ -228,6 +228,8 @@ def _run_clause(case, cname, per_path, timeout, known_entries, res):
       kind, g = s.goals[cname]
       vars_, hints = s.vars, s.hints
     out["kind"] = kind
+    if g is False and s is not None and s.info.get("raised"):
+      out["reason"] += " " + str(s.info["raised"])[:1500]
     g = _goal_expr(g)
     base = list(p.pc) + [z3.Not(g)]
     excl = []
